@@ -32,7 +32,9 @@
 (* Configurations (all closed: explored to a fixed point):                 *)
 (*  MC_DebFile_sets          all 2^15 subsets of the 15-name universe      *)
 (*  MC_DebFile_orders(_quick) all injective member sequences of length     *)
-(*                           <= 5 (<= 3) over the universe                 *)
+(*                           <= 4 (<= 3) over the universe                 *)
+(*  MC_DebFile_orders_mid    all injective sequences of length <= 5 over   *)
+(*                           the 9-name MidUniverse                        *)
 (*  MC_DebFile_content(_emit) one valid package x every content: 32 script *)
 (*                           subsets x partial maps {f1,f2,f3} ({f1,f2})   *)
 (*                           -> {11,12} x md5 subsets; PROBE lines         *)
@@ -103,6 +105,9 @@ FullUniverse == <<"debian-binary",
                   "data.tar", "data.tar.gz", "data.tar.bz2", "data.tar.xz", "data.tar.lzma",
                   "_gpgorigin", "control.tar.zst", "data.tar.gz.bak", "control.tar.Z">>
 OneUniverse  == <<"debian-binary", "control.tar.gz", "data.tar.xz">>
+\* two candidates per part and the four foreign names: long member orders stay enumerable
+MidUniverse  == <<"debian-binary", "control.tar", "control.tar.xz", "data.tar", "data.tar.gz",
+                  "_gpgorigin", "control.tar.zst", "data.tar.gz.bak", "control.tar.Z">>
 
 ----------------------------------------------------------------------------
 (* statement level *)
